@@ -101,6 +101,11 @@ static int run_config(vp_rng_t* r, int tscf, int udp, int fd, int count, int pac
                 if (rep_prev) in[i].fd.len = prev_len;
                 vp_rng_fill(r, in[i].fd.data, in[i].fd.len);
                 if (in[i].fd.len >= 4) memcpy(in[i].fd.data, &serial, 4);
+                /* a CAN_RAW socket with CAN_RAW_FD_FRAMES delivers classic frames of a mixed bus as 16-byte reads */
+                if (in[i].fd.len <= 8 && vp_rng_below(r, 5) == 0) {
+                    in[i].fd.flags = 0; memset((uint8_t*)&in[i].fd + 6, 0, 2);
+                    if (send(can[0], &in[i].fd, sizeof(struct can_frame), 0) < 0) { rc = 2; break; }
+                } else
                 if (send(can[0], &in[i].fd, sizeof(struct canfd_frame), 0) < 0) { rc = 2; break; }
             } else {
                 /* bytes of struct can_frame a talker has no business with: padding, reserved, and the raw DLC 9..15 a controller in
@@ -137,9 +142,12 @@ static int run_config(vp_rng_t* r, int tscf, int udp, int fd, int count, int pac
             char d[160]; snprintf(d, sizeof d, "control-format header announces %zu bytes, ACF messages occupy %zu (%d messages), packet carries %zu", announced, walk, nmsg, (size_t)pn - o - cfh);
             viol(cfg, "announced-length-differs", d, 0, 0, fd, pkt, (size_t)pn);
         }
-        /* through the real listener */
+        /* through the real listener; on raw Ethernet the sending MAC pads payloads below 46 bytes with zeros and AF_PACKET hands
+         * the padding to the receiver (every other short packet gets it here) */
+        size_t ln = (size_t)pn;
+        if (!udp && ln < 46 && (p & 1)) { memset(pkt + ln, 0, 46 - ln); ln = 46; }
         frame_t out[128]; size_t sizes[128];
-        int k = tunl_packet(lst[0], lst[1], pkt, (size_t)pn, out, sizes, 128);
+        int k = tunl_packet(lst[0], lst[1], pkt, ln, out, sizes, 128);
         n_evals++;
         if (k != count) {
             char d[96]; snprintf(d, sizeof d, "%d frames in, %d frames out", count, k);
